@@ -105,3 +105,20 @@ pub proof fn lemma_doc_lists_assoc(a: DocumentConfig, b: DocumentConfig, c: Docu
     ensures l.append@ =~= r.append@, l.prepend@ =~= r.prepend@, l.shell == r.shell, l.total_timeout == r.total_timeout,
         l.append@ =~= c.append@ + b.append@ + a.append@, l.prepend@ =~= a.prepend@ + b.prepend@ + c.prepend@,
 {}
+
+pub open spec fn first3<T>(a: Option<T>, b: Option<T>, c: Option<T>) -> Option<T> {
+    if a is Some { a } else if b is Some { b } else { c }
+}
+/// r is a over b over c (used for the call sites that compose the layers)
+pub open spec fn tc_layer3(a: TestCaseConfig, b: TestCaseConfig, c: TestCaseConfig, r: TestCaseConfig) -> bool {
+    &&& r.output_stream == first3(a.output_stream, b.output_stream, c.output_stream)
+    &&& r.keep_crlf == first3(a.keep_crlf, b.keep_crlf, c.keep_crlf)
+    &&& r.timeout == first3(a.timeout, b.timeout, c.timeout)
+    &&& r.detached == first3(a.detached, b.detached, c.detached)
+    &&& r.wait == first3(a.wait, b.wait, c.wait)
+    &&& r.skip_document_code == first3(a.skip_document_code, b.skip_document_code, c.skip_document_code)
+    &&& r.strip_ansi_escaping == first3(a.strip_ansi_escaping, b.strip_ansi_escaping, c.strip_ansi_escaping)
+    &&& forall|k: String| #![auto] r.environment@.dom().contains(k) <==> (a.environment@.dom().contains(k) || b.environment@.dom().contains(k) || c.environment@.dom().contains(k))
+    &&& forall|k: String| #![auto] r.environment@.dom().contains(k) ==> r.environment@[k] == (
+            if a.environment@.dom().contains(k) { a.environment@[k] } else if b.environment@.dom().contains(k) { b.environment@[k] } else { c.environment@[k] })
+}
